@@ -1,8 +1,8 @@
 SPECIFICATION Spec
 CONSTANTS
   NW = 3
-  NC = 3
-  Inc = {1,12}
+  NC = 2
+  Inc = {0,1,6,12}
   Thr = 10
   Mode = "all"
   Contig = TRUE
